@@ -1,10 +1,12 @@
 package props
 
 import (
-	"math"
 	"fmt"
 	"io"
+	"math"
 	"math/rand"
+	"os"
+	"runtime"
 	"sort"
 	"strings"
 	"sync"
@@ -15,6 +17,7 @@ import (
 	"github.com/hack-pad/hackpadfs"
 	"github.com/hack-pad/hackpadfs/cache"
 	"github.com/hack-pad/hackpadfs/mem"
+	hpos "github.com/hack-pad/hackpadfs/os"
 )
 
 // C10: the read-only cache is transparent.
@@ -23,6 +26,7 @@ import (
 type countingSource struct {
 	inner  hackpadfs.FS
 	noSeek bool
+	yield  bool
 	mu     sync.Mutex
 	opens  map[string]int
 	reads  map[string]int
@@ -63,7 +67,11 @@ type countingFile struct {
 func (c *countingFile) Read(p []byte) (int, error) {
 	c.src.mu.Lock()
 	c.src.reads[c.name]++
+	yield := c.src.yield
 	c.src.mu.Unlock()
+	if yield {
+		runtime.Gosched() // concurrent first opens: let the other copies run between two chunks
+	}
 	return c.f.Read(p)
 }
 func (c *countingFile) Stat() (hackpadfs.FileInfo, error) {
@@ -401,6 +409,12 @@ func c10run(env *core.Env, idx int) core.CaseResult {
 			res.Violate(fmt.Sprintf("C10|%s|reopen|source-read-again", sigKind), fmt.Sprintf("re-reading the retained file %q touched the source again: opens %d->%d, reads %d->%d", name, prev[0], o, prev[1], rd), cs)
 		}
 	}
+	if len(res.Violations) == 0 {
+		c10concurrent(env, cs, src, tree, &res)
+	}
+	if len(res.Violations) == 0 && idx%10 == 3 {
+		c10oslinks(env, cs, &res)
+	}
 	res.Count("policy:"+cs.Policy, 1)
 	for _, f := range tree.files {
 		res.Count(fmt.Sprintf("files_of_size_%d", tree.size[f]), 1)
@@ -409,6 +423,142 @@ func c10run(env *core.Env, idx int) core.CaseResult {
 		res.Sample = map[string]any{"case": cs, "files": tree.size, "script": fsx.HistoryString(script)}
 	}
 	return res
+}
+
+// c10concurrent: several files are opened for the first time at once through a fresh cache (the source yields between
+// chunks, so the copies interleave); each goroutine's bytes, and the bytes of a later re-open (served from the store),
+// are the source's.
+func c10concurrent(env *core.Env, cs c10case, src hackpadfs.FS, tree *c10tree, res *core.CaseResult) {
+	counted := newCountingSource(src, cs.NoSeek)
+	counted.yield = true
+	store, _ := mem.NewFS()
+	opts := cache.ReadOnlyOptions{RetainData: c10retain(cs.Policy)}
+	var c *cache.ReadOnlyFS
+	var err error
+	if cs.Store == "minimal" {
+		c, err = cache.NewReadOnlyFS(counted, &minimalStore{store}, opts)
+	} else {
+		c, err = cache.NewReadOnlyFS(counted, store, opts)
+	}
+	if err != nil {
+		return
+	}
+	files := tree.files
+	if len(files) > 6 {
+		files = files[:6]
+	}
+	want := map[string]string{}
+	for _, f := range files {
+		b, _ := hackpadfs.ReadFile(src, f)
+		want[f] = string(b)
+	}
+	sigKind := cs.Policy + "," + cs.Store
+	type out struct {
+		data string
+		err  error
+	}
+	for round := 0; round < 2; round++ { // 0: concurrent first opens; 1: re-opens afterwards, one at a time
+		got := make([]out, len(files))
+		var wg sync.WaitGroup
+		for i, name := range files {
+			i, name := i, name
+			work := func() {
+				defer wg.Done()
+				f, err := c.Open(name)
+				if err != nil {
+					got[i] = out{err: err}
+					return
+				}
+				b, rerr := io.ReadAll(f)
+				_ = f.Close()
+				got[i] = out{string(b), rerr}
+			}
+			wg.Add(1)
+			if round == 0 {
+				go work()
+			} else {
+				work()
+			}
+		}
+		wg.Wait()
+		for i, name := range files {
+			res.Count("concurrent_opens_compared", 1)
+			if got[i].err != nil || got[i].data != want[name] {
+				when := []string{"concurrent-first-open", "reopen-after-concurrent-first-opens"}[round]
+				res.Violate(fmt.Sprintf("C10|%s|%s|bytes", sigKind, when), fmt.Sprintf("%d files opened for the first time at once through the cache; %s of %q delivered %d bytes (err %v) that %s the source's %d bytes", len(files), when, name, len(got[i].data), got[i].err, map[bool]string{true: "differ from", false: "are not"}[len(got[i].data) == len(want[name])], len(want[name])), map[string]any{"case": cs, "files": files})
+				return
+			}
+		}
+	}
+}
+
+// c10oslinks: the cache directly over an os.FS holding symbolic links: every call through the cache answers what the
+// same call on the source answers (Stat follows links on both, Open reads the target, listings name the links).
+func c10oslinks(env *core.Env, cs c10case, res *core.CaseResult) {
+	d, err := os.MkdirTemp(env.Scratch, "c10os-")
+	if err != nil {
+		return
+	}
+	defer os.RemoveAll(d)
+	_ = os.Chmod(d, 0o777)
+	osfs, err := hpos.NewFS().Sub(d[1:])
+	if err != nil {
+		return
+	}
+	_ = hackpadfs.Mkdir(osfs, "dir", 0o755)
+	_ = hackpadfs.WriteFullFile(osfs, "dir/target", []byte(strings.Repeat("0123456789", 60)), 0o640)
+	_ = hackpadfs.WriteFullFile(osfs, "plain", []byte("plain"), 0o600)
+	_ = os.Symlink("dir/target", d+"/link")
+	_ = os.Symlink("dir", d+"/dirlink")
+	_ = os.Symlink("nowhere", d+"/dangling")
+	_ = os.Symlink("../plain", d+"/dir/up")
+	store, _ := mem.NewFS()
+	opts := cache.ReadOnlyOptions{RetainData: c10retain(cs.Policy)}
+	var c *cache.ReadOnlyFS
+	if cs.Store == "minimal" {
+		c, err = cache.NewReadOnlyFS(osfs, &minimalStore{store}, opts)
+	} else {
+		c, err = cache.NewReadOnlyFS(osfs, store, opts)
+	}
+	if err != nil {
+		return
+	}
+	sigKind := cs.Policy + "," + cs.Store + ",os-source"
+	var hc, hs fsx.Handles
+	defer hc.CloseAll()
+	defer hs.CloseAll()
+	var script []fsx.Step
+	for pass := 0; pass < 2; pass++ {
+		for _, name := range []string{"link", "dirlink", "dangling", "dir/up", "plain", "dir", "dirlink/target", "dirlink/up", ".", "missing"} {
+			for _, st := range []fsx.Step{{K: "Stat", P: name}, {K: "Open", P: name, Slot: 0}, {K: "H.Stat", Slot: 0}, {K: "H.Read", Slot: 0, N: 700}, {K: "H.ReadDir", Slot: 0, N: -1}, {K: "H.Close", Slot: 0}, {K: "Stat", P: name}} {
+				script = append(script, st)
+				rc := fsx.Exec(c, st, &hc, nil)
+				rs := fsx.Exec(osfs, st, &hs, nil)
+				if rc.Skip && rs.Skip {
+					continue
+				}
+				res.Count("os_source_calls_compared", 1)
+				if st.K == "H.Read" || st.K == "H.ReadDir" {
+					// which of the two fails on the wrong kind of handle, and how, is C02's matter
+					if !rc.OK() && !rs.OK() {
+						continue
+					}
+				}
+				if rc.Panic != "" {
+					res.Violate(fmt.Sprintf("C10|%s|%s|panic", sigKind, st.K), fmt.Sprintf("%s on the cache panicked: %s", st, rc.Panic), fsx.HistoryString(script))
+					return
+				}
+				eofish := func(e string) bool { return e == "ok" || e == "EOF" }
+				if st.K == "H.Read" && eofish(rc.Err) && eofish(rs.Err) && rc.N == rs.N && rc.N > 0 && rc.Data == rs.Data {
+					continue // io.Reader allows the end to be reported with the last bytes or by the next call
+				}
+				if rc.Err != rs.Err || rc.N != rs.N || rc.Data != rs.Data {
+					res.Violate(fmt.Sprintf("C10|%s|%s|differs", sigKind, st.K), fmt.Sprintf("cache over an os.FS with symbolic links: %s for %q: cache %s %q, source %s %q", st, name, rc, clip60(rc.Data), rs, clip60(rs.Data)), fsx.HistoryString(script))
+					return
+				}
+			}
+		}
+	}
 }
 
 func keysOf(m map[string]bool) string {
